@@ -13,6 +13,7 @@ def run_gen(prop, tier, regex, props=None, optsets=("full",), params_q=None, par
             max_paths_q=1500, max_paths_t=60000, hgen_extra=(), ladder=None, prim=None):
     c = GenCheck(prop, tier, level)
     params = dict(params_q or {}) if tier == "quick" else dict(params_t or params_q or {})
+    f_pattern = os.environ.get("VERIF_F_PATTERN") or f_pattern  # development aid: restrict the feature corpus
     corpus = corpus_f(f_pattern) + corpus_r(list(r_quick) if tier == "quick" else list(r_thorough))
     for key, schemas in corpus:
         for on in optsets:
@@ -56,3 +57,18 @@ SPEC = {
     "C10": dict(params_q=BYTES_Q, params_t=BYTES_T, ladder=BYTES_LADDER, bounds=BYTES_BOUNDS, outside=OUT_COMMON + ["JSON reader"], level="translation_validation", r_thorough=R_THOROUGH),
     "C17": dict(params_q=dict(VAL_Q, D=1), params_t=VAL_Q, ladder=VAL_LADDER, bounds=VAL_BOUNDS, outside=OUT_COMMON, r_thorough=R_THOROUGH),
 }
+
+J_Q = {"D": 1, "L": 2, "S": 1, "B": 1, "pool": 1}
+J_T = {"D": 2, "L": 2, "S": 2, "B": 2, "pool": 4, "extrabit": 1}
+SPEC["C09"] = dict(hgen_extra=["-jmode"], params_q=dict(BYTES_Q, slack=4, slack1=0, **J_Q), params_t=dict(BYTES_T, slack=8, slack1=4, **J_T),
+                   ladder=[{"slack": 0, "slack1": 0}], bounds=dict(BYTES_BOUNDS, **VAL_BOUNDS),
+                   outside=OUT_COMMON + ["JSON text that the generated writer does not produce, as the second decode"], r_thorough=R_QUICK,
+                   assumptions=["dirty objects: (a) whatever a first decode of arbitrary bytes leaves behind (success or failure), (b) one fully populated value per type (every optional part present), (c) an arbitrary value followed by Reset"])
+SPEC["C18"] = dict(params_q={"L": 2, "rlow": 99}, params_t={"L": 3, "rlow": 99}, ladder=[{"rlow": 1}, {"rlow": 0, "L": 1}],
+                   bounds={"rand": "ANY output sequence of the Rand source (every draw a fresh symbolic 64-bit value): strictly more than all seeds", "sizes": "SizeHandler = x mod (L+1)",
+                           "rlow": "when < 32: every draw is assumed to be <= rlow modulo 32 (keeps RandomString short; its length is not under SizeHandler control)"},
+                   outside=OUT_COMMON + ["JSON writer on random values (numbers symbolic)", "collection sizes above L"], r_thorough=R_QUICK)
+SPEC["C43"] = dict(params_q={"D": 1, "L": 1, "S": 1, "B": 1}, params_t={"D": 2, "L": 2, "S": 2, "B": 2}, ladder=[{"B": 0}],
+                   bounds=VAL_BOUNDS, outside=OUT_COMMON + ["JSON leg of presence (see C05 for the JSON writer/reader agreement)"], r_thorough=R_QUICK,
+                   assumptions=["object states are normalised by the generated RepairMasks (API-reachable presence state)",
+                                "frame condition is observed on the TL1/TL2 encodings with the accessed field cleared on both sides"])
